@@ -25,6 +25,7 @@ RULE = ("cases = derivation histories of 1-8 steps drawn from {int index, slice 
 ASSUMPTIONS = ["pyarrow to_pylist is a faithful independent read-back",
                "a fresh array built from the same element values is the reference for every "
                "derived quantity (bitwise equality, NaN == NaN)"]
+SPLIT_KINDS = True         # thorough tier: one shard per geometry kind
 DECIDING_COUNTERS = ["element_checks", "quantity_checks", "error_checks"]
 
 OPS = ["slice", "step", "mask", "intidx", "take", "takefill", "concat", "copy", "pickle",
